@@ -66,12 +66,16 @@ type mSeries struct {
 }
 
 type mPayload struct {
-	Kind     string    `json:"kind"` // rangefn | selector | agg
+	Kind     string    `json:"kind"` // rangefn | selector | agg | absent
 	Fn       string    `json:"fn,omitempty"`
+	Param    string    `json:"param,omitempty"` // scalar argument of quantile_over_time / predict_linear
+	// absent: did the engines return the (single) element
+	UpNonEmpty bool `json:"up_nonempty,omitempty"`
+	SvNonEmpty bool `json:"sv_nonempty,omitempty"`
 	T        int64     `json:"t"`
 	RangeMs  int64     `json:"range_ms"`
 	OffsetMs int64     `json:"offset_ms"`
-	Series   []mSeries `json:"series,omitempty"`
+	Series   []mSeries `json:"series"`
 	// agg
 	AggOp    string    `json:"agg_op,omitempty"`
 	Without  bool      `json:"without,omitempty"`
@@ -430,7 +434,11 @@ func buildModel(ds *dataset, e *exprCase, t int64, up, sv result, r *gen.Rand) *
 		if err != nil {
 			return nil
 		}
-		mp := &mPayload{Kind: e.Form, Fn: e.Fn, T: t, RangeMs: e.RangeMs, OffsetMs: e.Sel.OffsetMs}
+		mp := &mPayload{Kind: e.Form, Fn: e.Fn, T: t, RangeMs: e.RangeMs, OffsetMs: e.Sel.OffsetMs, Param: e.Param}
+		if e.Fn == "absent_over_time" {
+			mp.Kind = "absent"
+			mp.UpNonEmpty, mp.SvNonEmpty = len(up.Series) > 0, len(sv.Series) > 0
+		}
 		width := e.RangeMs
 		if e.Form == "selector" {
 			width = lookbackMs
@@ -465,7 +473,7 @@ func buildModel(ds *dataset, e *exprCase, t int64, up, sv result, r *gen.Rand) *
 			ms.Sv = find(sv, s.Labels, dropName)
 			mp.Series = append(mp.Series, ms)
 		}
-		if total > 400 || len(mp.Series) == 0 {
+		if total > 400 || (len(mp.Series) == 0 && mp.Kind != "absent") {
 			return nil
 		}
 		return mp
@@ -605,6 +613,8 @@ func runCase1(n int, di int, ds *dataset, u *upstream, sv *server, e exprCase, m
 					co.Up = toJ(fromSv)
 				}
 				switch {
+				case absentOffset(e.Expr) > 0:
+					co.Known = addRule(co.Known, fAbsentOff)
 				case maxOffsetUnderAgg(e.Expr) > 0:
 					co.Known = addRule(co.Known, fOffAgg)
 				case rangeShorterThanStep(e.Expr, step) || (hasMatrixSelector(e.Expr) && fromSv.Err == "" && trailingLoss(fromSv, svr)):
